@@ -109,6 +109,17 @@ Theorem multi_equals_single v Lmaxs n m c :
   end.
 Proof. exact (fun Hne Hpos Hm => BinnedThm.multi_equals_single v Lmaxs n m Hne Hpos Hm c). Qed.
 
+(* generalisation to per-point signs: it suffices that |L_i| / Lmax_i is one common ratio r (points scaled by
+   negative factors keep the sign of their own load) *)
+Theorem multi_equals_single_abs v Lmaxs n m r Ls :
+  Lmaxs <> [] -> Forall (fun Lm => 0 < Lm) Lmaxs -> (1 <= m)%nat ->
+  Forall2 (fun Lm L => Qabs L == r * Lm) Lmaxs Ls ->
+  match mbinned v Lmaxs n m Ls with
+  | MVal qs => Forall2 (fun p q => binned v (fst p) n m (snd p) = Val q) (combine Lmaxs Ls) qs
+  | MErr => Forall (fun p => binned v (fst p) n m (snd p) = Err) (combine Lmaxs Ls)
+  end.
+Proof. exact (BinnedThm.multi_equals_single_abs v Lmaxs n m r Ls). Qed.
+
 (* the hypothesis 0 < Lmax of every point cannot be weakened to 0 <= Lmax: with an unloaded FIRST point the faithful
    model (like the implementation: known finding C07/zero-first-point) gives every point its class-1 value and
    rejects no load *)
@@ -158,6 +169,7 @@ Print Assumptions within_one_class_value.
 Print Assumptions monotone.
 Print Assumptions multi_table_is_single_tables.
 Print Assumptions multi_equals_single.
+Print Assumptions multi_equals_single_abs.
 Print Assumptions multi_equals_single_refuted_zero_first.
 Print Assumptions multi_range_refuted_zero_first.
 Print Assumptions example_values.
